@@ -142,8 +142,7 @@ def shard_fault_matrix(desc, rec):
                          nontrivial=bool(pres) or bool(fo.get("fault")),
                          sample={"n": n, "prefix": [C._op_brief(o) for o in pre_ops], "fault": C._op_brief(fo),
                                  "continuation": [C._op_brief(o) for o in cont]} if idx % 1999 == 0 else None)
-                h.run()
-                C._finish(rec, h)
+                C.run_history(rec, h)
                 if not h.stopped:
                     rec.count("c07:continuations-completed")
 
@@ -183,8 +182,7 @@ def shard_holes(desc, rec):
         h = C.History(rec, orc, init, ops, "holes")
         rec.case({"init": init, "op": C._op_brief(ops[0])}, True,
                  sample={"init": init, "ops": [C._op_brief(o) for o in ops]} if i % 40 == 0 else None)
-        h.run()
-        C._finish(rec, h)
+        C.run_history(rec, h)
 
 
 def shard_failpoints(desc, rec):
